@@ -193,10 +193,10 @@ def np_reindexed(a, mapping, common):
     return f(a) if a.size else a.copy()
 
 
-def np_collapsed(a, precedence):
+def np_collapsed(a, precedence, mapping=None):
     out = np.empty(a.shape[0], dtype=np.int64)
     for r in range(a.shape[0]):
-        row = set(a[r].reshape(-1).tolist())
+        row = set((mapping or {}).get(v, v) for v in a[r].reshape(-1).tolist())
         out[r] = next((p for p in precedence if p in row), precedence[-1])
     return out
 
